@@ -130,6 +130,7 @@ theorem opResult_reads (h : Heap) (hi : Inv h) (op : Op) (p : Handle) (hp : opRe
   | popUnmarked c => simp [opResult] at hp
   | mark q => simp [opResult] at hp
   | sweep w => simp [opResult] at hp
+  | syncTemp t => simp [opResult] at hp
 
 theorem isAlloc_not_sweep (ops : List Op) (ha : ∀ op ∈ ops, isAlloc op = true) :
     ∀ op ∈ ops, ∀ w, op ≠ .sweep w := by
